@@ -51,7 +51,10 @@ def run(tier, seed, replay):
         if outcome and outcome[0].isupper():
             kind = name.split(":")[0]
             kchain = chain or "?"
-            if kchain.startswith("jansson*"):
+            if kchain.startswith("failure-reported-by:"):
+                # jansson returned failure from its entry point and the result still differs: libjwt ignored a reported failure
+                kchain = "jansson-failure-ignored:" + kchain.split("|")[0].split(":", 1)[1]
+            elif kchain.startswith("jansson*"):
                 # the failing allocation is inside jansson: the defect is identified by jansson's public entry point,
                 # whichever libjwt function happened to call it
                 fr = kchain.split("<")
